@@ -200,13 +200,18 @@ Finalize(ep, f, now) ==
     ELSE IF f.kind = "SEQRESET" /\ f.newseq = 0 THEN ep
     ELSE LET e1 == [ep EXCEPT !.nin = IF f.kind = "SEQRESET" THEN f.newseq ELSE f.seq + 1]
              num == IF f.kind = "SEQRESET" THEN f.newseq - 1 ELSE f.seq
-         IN IF num <= 0 THEN e1
+             sr == f.kind = "SEQRESET" /\ f.newseq > 0
+         IN IF num <= 0 /\ ~sr THEN e1
             ELSE LET e2 == IF e1.cs = AWAIT /\ num >= e1.maxr
                            THEN SetState([e1 EXCEPT !.maxr = 0], "ACTIVE") ELSE e1
                      e3 == [e2 EXCEPT !.last = now]
-                 IN IF \E i \in DOMAIN e3.jin : e3.jin[i] = f.seq THEN Err(e3, "DuplicateSeqNoError")
-                    ELSE LET e4 == [e3 EXCEPT !.jin = SelectSeq(@, LAMBDA n : n < f.seq) \o <<f.seq>> \o SelectSeq(@, LAMBDA n : n > f.seq),
-                                              !.sin = f.seq + 1]
+                 IN \* a SequenceReset at or below its own number is not journaled (the cleanup of SetSeqIn would drop it)
+                    IF sr /\ f.newseq <= f.seq THEN SetSeqIn(e3, f.newseq)
+                    ELSE IF \E i \in DOMAIN e3.jin : e3.jin[i] = f.seq THEN Err(e3, "DuplicateSeqNoError")
+                    ELSE LET \* the stored counter follows the live expectation when that is ahead of the frame (persist_msg)
+                             st == IF KF_StoredInLag \/ e3.nin - 1 < f.seq THEN f.seq + 1 ELSE e3.nin
+                             e4 == [e3 EXCEPT !.jin = SelectSeq(@, LAMBDA n : n < f.seq) \o <<f.seq>> \o SelectSeq(@, LAMBDA n : n > f.seq),
+                                              !.sin = st]
                          IN IF f.kind = "SEQRESET" /\ ~KF_StoredInLag THEN SetSeqIn(e4, f.newseq) ELSE e4
 
 (* ---- _process_message -------------------------------------------------------- *)
